@@ -120,7 +120,8 @@ def materialise(d: dict, root: str, out_name: str = 'out') -> list[str]:
         if d.get('gtf'):
             gt = gtf_text(contig, d['strand'], d['gtf'])
             if c2:
-                g2 = dict(d['gtf'], gene_id=(d['gtf'].get('gene_id') or 'G') + '_2', transcript_id=(d['gtf'].get('transcript_id') or 'T') + '_2')
+                g2 = dict(d['gtf'], gene_id=(d['gtf']['gene_id'] + '_2' if d['gtf'].get('gene_id') else d['gtf'].get('gene_id')),
+                          transcript_id=(d['gtf']['transcript_id'] + '_2' if d['gtf'].get('transcript_id') else d['gtf'].get('transcript_id')))
                 gt += gtf_text(c2, d['strand'], g2)
             _write(os.path.join(root, 'annot.gtf'), gt)
             argv += ['--gff', os.path.join(root, 'annot.gtf')]
